@@ -328,6 +328,7 @@ func parseGroup(mp *msgParser, tags []Tag) {
 		}
 		mp.fieldIndex++
 		mp.parsedFieldBytes = &mp.msg.fields[mp.fieldIndex]
+		bytesFromThisField := mp.rawBytes
 		mp.rawBytes, _ = extractField(mp.parsedFieldBytes, mp.rawBytes)
 		mp.trailerBytes = mp.rawBytes
 
@@ -348,7 +349,8 @@ func parseGroup(mp *msgParser, tags []Tag) {
 			mp.msg.Header.add(mp.msg.fields[mp.fieldIndex : mp.fieldIndex+1])
 			break
 		} else if isTrailerField(mp.parsedFieldBytes.tag, mp.transportDataDictionary) {
-			// Found the trailer at the end of the message.
+			// Found the trailer at the end of the message: it begins with this field, the body ends before it.
+			mp.trailerBytes = bytesFromThisField
 			mp.msg.Body.add(dm)
 			mp.msg.Trailer.add(mp.msg.fields[mp.fieldIndex : mp.fieldIndex+1])
 			mp.foundTrailer = true
